@@ -82,9 +82,14 @@ def step : Step St := fun st fs impl =>
     match parseAll (do let d ← pbool; let cs ← counted pchain; pure (d, cs)) rest with
     | none => (⟨none, false⟩, "bad-op", "-")
     | some (d, cs) =>
+      -- monitor: "configurations in which two chains would tie are rejected during validation"
       match build d cs with
-      | .ok t => (⟨some t, d⟩, "ok", "-")
-      | .error e => (⟨none, d⟩, e.show, "-")
+      | .ok t => (⟨some t, d⟩, "ok", if impl = "ok" ∨ impl.startsWith "reject:" then "ok" else s!"VIOL unexpected answer {impl}")
+      | .error e =>
+        let v := if e = .overlap ∧ impl = "ok" then
+            "VIOL validation accepted a listener in which two filter chains have the same match criteria (a tie)"
+          else "-"
+        (⟨none, d⟩, e.show, v)
   | "look" :: rest =>
     match st.table with
     | none => (st, "nolis", "-")
